@@ -200,9 +200,9 @@ func c12Run(_ int, hist []int) *mc.SeqOut {
 
 func init() {
 	mc.Register(&mc.Property{
-		ID:    "C12",
-		Level: "model_checking",
-		Rule: "explicit-state BFS over sequential request histories (create, update with correct / stale / zero expectation, delete likewise, compaction, on 2 keys that are missing / live / deleted / compacted), each history executed on memkv, badger, tikv-mock and metrics(badger) with one open watcher; transcripts (success flags, relative revisions, failure-branch values, point and range reads at every revision, events; errors normalised to 'error') compared pairwise with memkv; states de-duplicated on the read-back part of the memkv transcript",
+		ID:     "C12",
+		Level:  "model_checking",
+		Rule:   "explicit-state BFS over sequential request histories (create, update with correct / stale / zero expectation, delete likewise, compaction, on 2 keys that are missing / live / deleted / compacted), each history executed on memkv, badger, tikv-mock and metrics(badger) with one open watcher; transcripts (success flags, relative revisions, failure-branch values, point and range reads at every revision, events; errors normalised to 'error') compared pairwise with memkv; states de-duplicated on the read-back part of the memkv transcript",
 		Assume: []string{"single client, default schedule, quiescence after every request", "memkv is the reference (tied to the versioned-map model by C03)"},
 		Exec:   func(j *mc.Job) *mc.JobResult { return mc.SeqExec(j, c12Run) },
 		Drive: func(c *mc.Ctx) {
